@@ -83,3 +83,19 @@ package nodes
 //@   ensures polled: calls(Poll) == old(calls(Poll)) + 1
 //@   ensures ri: result == nil ==> prevRI(previouslySentValues) && aggRI(aggregates)
 //@   ensures nometa: len(OUTM) == old(len(OUTM))
+
+// C17/C06/C18 CustomTriggerGroupBy.Run, for every history and every Trigger implementation (interface calls are counted
+// by ghost counters calls(Method)): every record is reported to the trigger exactly once (also a retraction that
+// empties its group) and is followed by one trigger round; a watermark is given to the trigger, then one trigger
+// round runs, and only then — after that round's output — is the watermark forwarded, unchanged; other metadata is
+// forwarded unchanged; errors of the source, the expressions and produce/metaSend propagate.
+//@ func (*CustomTriggerGroupBy).Run
+//@   stream 1 invariant ri: prevRI(previouslySentValues) && aggRI(aggregates) && addr(previouslySentValues) != addr(aggregates) && len(OUTM) == len(INM)
+//@   stream 1 step IN keyreceived: stepErr == nil ==> calls(KeyReceived) == old(calls(KeyReceived)) + 1
+//@   stream 1 step IN round: stepErr == nil ==> calls(Poll) == old(calls(Poll)) + 1
+//@   stream 1 step IN nometa: len(OUTM) == old(len(OUTM))
+//@   stream 1 step INM watermark: stepErr == nil && lastInM().Type == 0 ==> calls(WatermarkReceived) == old(calls(WatermarkReceived)) + 1 && calls(Poll) == old(calls(Poll)) + 1
+//@   stream 1 step INM order: stepErr == nil ==> callsAtLastMeta(Poll) == calls(Poll) && callsAtLastMeta(WatermarkReceived) == calls(WatermarkReceived) && outAtLastMeta() == len(OUT)
+//@   stream 1 step INM forward: stepErr == nil ==> len(OUTM) == old(len(OUTM)) + 1 && lastOutM() == lastInM()
+//@   ensures endofstream: result == nil ==> calls(EndOfStreamReached) >= 1 && calls(Poll) >= 1
+//@   ensures errprop: runErr != nil ==> result != nil
